@@ -1,8 +1,9 @@
 package main
 
 // Translation of the byte-level string functions of internal/strings (serialize.go: AppendQuotedString,
-// convert.go: QuotedBytes, ToUpper; match.go: trimPercent, NewMatcher) into Gallina (coq/Gen/GenStrSer.v, tie T1
-// for C14 / C09 / C06 / C18).
+// convert.go: QuotedBytes, ToUpper; match.go: trimPercent, NewMatcher, the nine Matches methods) and of the like /
+// ilike loops that use them (internal/scolumn regexFilter, internal/ecolumn filterLike) into Gallina
+// (coq/Gen/GenStrSer.v, tie T1 for C14 / C09 / C06 / C18).
 //
 // The functions listed in gqSpecs are translated statement by statement into definitions gst_<name>.
 // coq/Proofs/GenStrSerProofs.v proves every generated definition equal to the hand-written model the engines
@@ -56,6 +57,21 @@ package main
 //	            from the type declarations of the literals met (all fields must be given, declaration order).
 //	errors      a function with results (Matcher, error): return x, nil -> Ok x; return nil,
 //	            qerrors.Propagate(.., err) -> Fail (Propagate answers a struct value, never nil).
+//	methods     func (m *T) M(..) with T a struct of string / []byte / *regexp.Regexp fields: the receiver is the
+//	            fields of the struct (variables m_<field>), answered back after the results; m.f reads a field;
+//	            F(&m.f, ..) / F(&x, ..) for a translated F with a *[]byte argument reads the variable and rebinds it
+//	            to the value F leaves behind; m.r.MatchString(s) -> re_MatchString r s (ARBITRARY).  The interface
+//	            call x.Matches(s) on a Matcher variable -> gst_Matches fuel' x s, the generated dispatch over the
+//	            constructors of gst_Matcher (every one must have a translated Matches); it rebinds x.
+//	like loops  (internal/scolumn regexFilter, internal/ecolumn filterLike) index.Int -> list nat (row ids, only
+//	            usable as argument of stringAt), index.Bool -> list bool (b[i] = v -> gst_store_bool; an argument
+//	            written this way is answered like a pointer argument), the string column -> its cells
+//	            list (option bytes) with s, isNull := col.stringAt(id) -> gst_stringAt (body text-matched),
+//	            []string -> list bytes, for i, x := range xs -> the (position, element) pairs gst_enum xs,
+//	            *bitset -> list Z with &bitset{} -> gst_bitset_zero and b.set(e) -> gf_ecolumn_bitset_set of
+//	            GenFuncs.v, enumVal(i) -> i mod 256;  x, err := F(..) immediately followed by
+//	            if err != nil { return [nil,] qerrors.Propagate(.., err) } -> do x <- F fuel' ..; (Fail passes
+//	            through).  A variable may shadow an argument of the function that is never assigned.
 //	results     every function takes (fuel : nat) first, then its arguments, and answers
 //	            outcome (r1 * .. * rn * p1 * ..) — results, then the final values behind its pointer arguments.
 //	            Panic = Go panic OR fuel used up.
@@ -98,7 +114,16 @@ import (
 const gqPkg = "internal/strings"
 
 // in dependency order (a callee before its callers)
-var gqSpecs = []string{"AppendQuotedString", "QuotedBytes", "ToUpper", "trimPercent", "NewMatcher"}
+var gqSpecs = []string{"AppendQuotedString", "QuotedBytes", "ToUpper", "trimPercent", "NewMatcher",
+	"CIPrefixMatcher.Matches", "CISuffixMatcher.Matches", "CIContainsMatcher.Matches", "CIExactMatcher.Matches",
+	"PrefixMatcher.Matches", "SuffixMatcher.Matches", "ContainsMatcher.Matches", "ExactMatcher.Matches",
+	"RegexpMatcher.Matches", "internal/scolumn:regexFilter", "internal/ecolumn:filterLike"}
+
+// the text the vocabulary of the other packages stands for
+var gqForeignVocabulary = []struct{ pkg, fn, body, what string }{
+	{"internal/scolumn", "Column.stringAt", "{\n\tp := c.pointers[i]\n\tif p.IsNull() {\n\t\treturn \"\", true\n\t}\n\treturn qfstrings.UnsafeBytesToString(c.data[p.Offset() : p.Offset()+p.Len()]), false\n}",
+		"the cell of row i, or null"},
+}
 
 // the text the fixed vocabulary stands for (bodies printed by go/printer)
 var gqVocabulary = map[string]string{
@@ -113,7 +138,7 @@ const gqPreamble = `(* GENERATED by tools/qf2coq (strser.go) from internal/strin
    answered last; strings.ToUpper is the arbitrary str_upper, regexp.Compile(x) succeeds iff re_compile x, the
    structs NewMatcher builds are the constructors of gst_Matcher; every function takes fuel first: O => Panic, S fuel' => the body, whose for loops and calls
    all get fuel' (range loops are structural). *)
-From QF Require Import Base.Prelude Model.Utf8 Model.Match.
+From QF Require Import Base.Prelude Model.Utf8 Model.Match Gen.GenFuncs.
 Local Open Scope Z_scope.
 
 (* len(x), x[i], x[a:b], x[a:], x[:b] *)
@@ -151,6 +176,16 @@ Definition gst_range (s : bytes) : list (Z * Z) :=
   map (fun p => (Z.of_nat (fst p), Z.of_N (snd p))) (range_string s).
 (* strings.TrimPrefix, strings.TrimSuffix (strings.HasPrefix / HasSuffix and regexp.QuoteMeta are has_prefix /
    has_suffix / quote_meta of Model/Match.v; x == y on strings is bytes_eqb) *)
+(* the like loops of internal/scolumn and internal/ecolumn: index[i] on an index.Int (row ids), col.stringAt(id) on a
+   string column given as its cells (None = null; the body of stringAt is text-matched), bIndex[i] = b on an
+   index.Bool, for i, x := range xs on a slice (the (position, element) pairs), &bitset{} *)
+Definition gst_index_id (s : list nat) (i : Z) : outcome nat := if i <? 0 then Panic else idx s (Z.to_nat i).
+Definition gst_stringAt (col : list (option bytes)) (i : nat) : outcome (bytes * bool) :=
+  do c <- idx col i; Ok (match c with None => ([], true) | Some x => (x, false) end).
+Definition gst_store_bool (b : list bool) (i : Z) (v : bool) : outcome (list bool) :=
+  if (0 <=? i) && (i <? Z.of_nat (length b)) then Ok (set_nth b (Z.to_nat i) v) else Panic.
+Definition gst_enum {T : Type} (l : list T) : list (Z * T) := combine (map Z.of_nat (seq 0 (length l))) l.
+Definition gst_bitset_zero : list Z := [0; 0; 0; 0].
 Definition gst_TrimPrefix (s p : bytes) : bytes := if has_prefix s p then skipn (length p) s else s.
 Definition gst_TrimSuffix (s p : bytes) : bytes :=
   if has_suffix s p then firstn (length s - length p) s else s.
@@ -178,6 +213,11 @@ type gqFunc struct {
 	results []string // kinds
 	ptrs    []string // Go names of the pointer arguments
 	errRes  bool     // the last result is an error: return x, nil -> Ok x; return nil, e -> Fail
+	pkg     string   // the package directory
+	outs    []string // Go names of the []bool arguments that are assigned through (answered like pointer arguments)
+	recv    string   // a method with pointer receiver: the Go name of the receiver,
+	recvTy  string   // its struct type,
+	fields  []gqVar  // and the fields of that struct as variables <recv>_<field> (answered after the results)
 	done    bool
 	ok      bool
 	text    string
@@ -196,9 +236,19 @@ var gqMatcherFields = map[string][]string{}
 
 // structFields resolves type T (through `type T U` chains) to the fields of its struct.
 func (t *gqTr) structFields(name string) ([]string, bool) {
+	vs, ok := gqStructFields(t.p, name)
+	var out []string
+	for _, v := range vs {
+		out = append(out, v.name)
+	}
+	return out, ok
+}
+
+// gqStructFields: the fields with their kinds (string, []byte -> bytes; *regexp.Regexp -> regexp)
+func gqStructFields(p *pkgInfo, name string) ([]gqVar, bool) {
 	for depth := 0; depth < 8; depth++ {
 		var spec *ast.TypeSpec
-		for _, f := range t.p.files {
+		for _, f := range p.files {
 			for _, d := range f.Decls {
 				gd, ok := d.(*ast.GenDecl)
 				if !ok || gd.Tok != token.TYPE {
@@ -218,14 +268,21 @@ func (t *gqTr) structFields(name string) ([]string, bool) {
 		case *ast.Ident:
 			name = u.Name
 		case *ast.StructType:
-			var out []string
+			var out []gqVar
 			for _, fl := range u.Fields.List {
-				ty := t.src(fl.Type)
-				if ty != "string" && ty != "[]byte" && ty != "*regexp.Regexp" {
+				var tb bytes.Buffer
+				printer.Fprint(&tb, p.fset, fl.Type)
+				kind := ""
+				switch tb.String() {
+				case "string", "[]byte":
+					kind = "bytes"
+				case "*regexp.Regexp":
+					kind = "regexp"
+				default:
 					return nil, false
 				}
 				for _, n := range fl.Names {
-					out = append(out, n.Name)
+					out = append(out, gqVar{n.Name, kind})
 				}
 			}
 			return out, len(out) > 0
@@ -268,9 +325,9 @@ func (t *gqTr) src(n ast.Node) string {
 }
 
 func (c gqCtx) lookup(name string) (gqVar, bool) {
-	for _, v := range c.vars {
-		if v.name == name {
-			return v, true
+	for i := len(c.vars) - 1; i >= 0; i-- {
+		if c.vars[i].name == name {
+			return c.vars[i], true
 		}
 	}
 	return gqVar{}, false
@@ -286,6 +343,20 @@ func gqCoqType(kind string) string {
 		return "bool"
 	case "matcher":
 		return "gst_Matcher"
+	case "ids":
+		return "(list nat)"
+	case "id":
+		return "nat"
+	case "bools":
+		return "(list bool)"
+	case "scol":
+		return "(list (option bytes))"
+	case "strs":
+		return "(list bytes)"
+	case "bitset":
+		return "(list Z)"
+	case "enumval":
+		return "Z"
 	}
 	return "bytes"
 }
@@ -392,6 +463,90 @@ func gqEncodeCall(e ast.Expr) (buf *ast.Ident, off ast.Expr, r ast.Expr, ok bool
 	return id, sl.Low, ce.Args[1], true
 }
 
+// gqIsErrorReturn: return [nil, ..] qerrors.Propagate(.., e)
+func gqIsErrorReturn(x *ast.ReturnStmt) bool {
+	if len(x.Results) == 0 {
+		return false
+	}
+	ce, isCall := gqIsCall(x.Results[len(x.Results)-1], "qerrors", "Propagate")
+	if !isCall || len(ce.Args) != 2 {
+		return false
+	}
+	for _, r := range x.Results[:len(x.Results)-1] {
+		if id, ok := r.(*ast.Ident); !ok || id.Name != "nil" {
+			return false
+		}
+	}
+	return true
+}
+
+// gqErrCall: x, err := [pkg.]F(args) with F a translated function that has an error result, when the NEXT statement
+// is exactly `if err != nil { return [nil,] qerrors.Propagate(.., err) }`: the pair is  do v_x <- F fuel' args;
+// (the error return of F is Fail, and Fail is what this function then answers)
+func gqErrCall(st ast.Stmt, rest []ast.Stmt) (x string, g *gqFunc, call *ast.CallExpr, ok bool) {
+	as, isAs := st.(*ast.AssignStmt)
+	if !isAs || as.Tok != token.DEFINE || len(as.Lhs) != 2 || len(as.Rhs) != 1 || len(rest) == 0 {
+		return
+	}
+	ce, isCall := as.Rhs[0].(*ast.CallExpr)
+	if !isCall {
+		return
+	}
+	name := ""
+	switch fn := ce.Fun.(type) {
+	case *ast.Ident:
+		name = fn.Name
+	case *ast.SelectorExpr:
+		if id, isId := fn.X.(*ast.Ident); isId && id.Name == "qfstrings" {
+			name = fn.Sel.Name
+		}
+	}
+	g, have := gqFuncs[name]
+	if !have || !g.errRes || len(g.results) != 1 {
+		return
+	}
+	xi, ok1 := as.Lhs[0].(*ast.Ident)
+	ei, ok2 := as.Lhs[1].(*ast.Ident)
+	if !ok1 || !ok2 || xi.Name == "_" || ei.Name == "_" {
+		return
+	}
+	ifs, isIf := rest[0].(*ast.IfStmt)
+	if !isIf || ifs.Init != nil || ifs.Else != nil || len(ifs.Body.List) != 1 {
+		return
+	}
+	be, isBin := ifs.Cond.(*ast.BinaryExpr)
+	if !isBin || be.Op != token.NEQ {
+		return
+	}
+	l, okL := be.X.(*ast.Ident)
+	r, okR := be.Y.(*ast.Ident)
+	if !okL || !okR || l.Name != ei.Name || r.Name != "nil" {
+		return
+	}
+	ret, isRet := ifs.Body.List[0].(*ast.ReturnStmt)
+	if !isRet || !gqIsErrorReturn(ret) {
+		return
+	}
+	return xi.Name, g, ce, true
+}
+
+// gqAddrTarget: &x -> x;  &recv.f -> recv_f
+func gqAddrTarget(e ast.Expr, recv string) (string, bool) {
+	u, ok := e.(*ast.UnaryExpr)
+	if !ok || u.Op != token.AND {
+		return "", false
+	}
+	switch y := u.X.(type) {
+	case *ast.Ident:
+		return y.Name, true
+	case *ast.SelectorExpr:
+		if id, ok := y.X.(*ast.Ident); ok && recv != "" && id.Name == recv {
+			return recv + "_" + y.Sel.Name, true
+		}
+	}
+	return "", false
+}
+
 // assigned: the Go names assigned (not declared) below n.
 func gqAssigned(n ast.Node) map[string]bool {
 	names := map[string]bool{}
@@ -425,6 +580,23 @@ func gqAssigned(n ast.Node) map[string]bool {
 			}
 			if b, _, _, ok := gqEncodeCall(x); ok {
 				names[b.Name] = true
+			}
+			if se, ok := x.Fun.(*ast.SelectorExpr); ok && (se.Sel.Name == "Matches" || se.Sel.Name == "set") {
+				if id, ok := se.X.(*ast.Ident); ok {
+					names[id.Name] = true
+				}
+			}
+			for _, a := range x.Args {
+				if u, ok := a.(*ast.UnaryExpr); ok && u.Op == token.AND {
+					switch y := u.X.(type) {
+					case *ast.Ident:
+						names[y.Name] = true
+					case *ast.SelectorExpr:
+						if id, ok := y.X.(*ast.Ident); ok {
+							names[id.Name+"_"+y.Sel.Name] = true
+						}
+					}
+				}
 			}
 		}
 		return true
@@ -576,6 +748,11 @@ func (t *gqTr) expr(e ast.Expr, c gqCtx, pre *[]string) gqVal {
 		t.fail(e, "unknown identifier %s", x.Name)
 		return bad
 	case *ast.SelectorExpr:
+		if id, ok := x.X.(*ast.Ident); ok && t.f.recv != "" && id.Name == t.f.recv {
+			if v, ok := c.lookup(t.f.recv + "_" + x.Sel.Name); ok {
+				return gqVal{text: "v_" + v.name, kind: v.kind}
+			}
+		}
 		if id, ok := x.X.(*ast.Ident); ok && id.Name == "utf8" {
 			if _, sh := c.lookup("utf8"); !sh {
 				switch x.Sel.Name {
@@ -596,6 +773,9 @@ func (t *gqTr) expr(e ast.Expr, c gqCtx, pre *[]string) gqVal {
 		}
 	case *ast.UnaryExpr:
 		if cl, ok := x.X.(*ast.CompositeLit); ok && x.Op == token.AND {
+			if id, isId := cl.Type.(*ast.Ident); isId && id.Name == "bitset" && len(cl.Elts) == 0 && t.f.pkg == "internal/ecolumn" {
+				return gqVal{text: "gst_bitset_zero", kind: "bitset"}
+			}
 			return t.matcherLit(cl, c, pre)
 		}
 		a := t.expr(x.X, c, pre)
@@ -608,6 +788,14 @@ func (t *gqTr) expr(e ast.Expr, c gqCtx, pre *[]string) gqVal {
 	case *ast.BinaryExpr:
 		return t.binary(x, c, pre)
 	case *ast.IndexExpr:
+		if id, ok := x.X.(*ast.Ident); ok {
+			if v, known := c.lookup(id.Name); known && v.kind == "ids" && pre != nil {
+				i := t.intExpr(x.Index, c, pre)
+				tmp := t.tmp()
+				*pre = append(*pre, "do "+tmp+" <- gst_index_id v_"+v.name+" "+i+";\n")
+				return gqVal{text: tmp, kind: "id"}
+			}
+		}
 		s := t.bytesExpr(x.X, c, pre)
 		iv := t.expr(x.Index, c, pre)
 		i := t.asZ(x.Index, iv, true)
@@ -820,12 +1008,26 @@ func (t *gqTr) call(x *ast.CallExpr, c gqCtx, pre *[]string) gqVal {
 				t.fail(x, "%s is called before it is translated (order of gqSpecs)", g.goName)
 				return bad
 			}
-			if len(g.ptrs) > 0 || len(g.results) != 1 || len(x.Args) != len(g.params) || pre == nil {
+			if len(g.fields) > 0 || len(g.results) != 1 || len(x.Args) != len(g.params) || pre == nil {
 				t.fail(x, "call of %s in a form that is not understood", g.goName)
 				return bad
 			}
 			parts := []string{g.coq, "fuel'"}
+			tmp := t.tmp()
+			pat := []string{tmp}
 			for i, a := range x.Args {
+				if g.params[i].kind == "ptr" {
+					// &x or &recv.field: the variable is read, and rebound to the value the callee leaves behind it
+					name, ok := gqAddrTarget(a, t.f.recv)
+					v, known := c.lookup(name)
+					if !ok || !known || v.kind != "bytes" {
+						t.fail(a, "a pointer argument must be &x or &%s.f of a []byte variable / field", t.f.recv)
+						return bad
+					}
+					parts = append(parts, "v_"+name)
+					pat = append(pat, "v_"+name)
+					continue
+				}
 				v := t.expr(a, c, pre)
 				switch g.params[i].kind {
 				case "bytes":
@@ -836,19 +1038,44 @@ func (t *gqTr) call(x *ast.CallExpr, c gqCtx, pre *[]string) gqVal {
 					t.fail(a, "argument type of %s", g.goName)
 				}
 			}
-			tmp := t.tmp()
-			*pre = append(*pre, "do "+tmp+" <- "+strings.Join(parts, " ")+";\n")
+			*pre = append(*pre, "do "+gsTuple(pat)+" <- "+strings.Join(parts, " ")+";\n")
 			return gqVal{text: tmp, kind: g.results[0]}
 		}
 	}
 	for _, lib := range []struct{ pkg, fn, coq, kind string }{
 		{"strings", "HasPrefix", "has_prefix", "bool"}, {"strings", "HasSuffix", "has_suffix", "bool"},
 		{"strings", "TrimPrefix", "gst_TrimPrefix", "bytes"}, {"strings", "TrimSuffix", "gst_TrimSuffix", "bytes"},
+		{"strings", "Contains", "contains", "bool"},
 	} {
 		if ce, ok := gqIsCall(x, lib.pkg, lib.fn); ok && len(ce.Args) == 2 && !shadow(lib.pkg) {
 			a := t.bytesExpr(ce.Args[0], c, pre)
 			b := t.bytesExpr(ce.Args[1], c, pre)
 			return gqVal{text: "(" + lib.coq + " " + a + " " + b + ")", kind: lib.kind}
+		}
+	}
+	// m.Matches(s) on a Matcher variable: the interface call; the matcher is rebound to what the method leaves
+	if se, ok := x.Fun.(*ast.SelectorExpr); ok && se.Sel.Name == "Matches" && len(x.Args) == 1 && pre != nil {
+		if id, ok := se.X.(*ast.Ident); ok {
+			if v, known := c.lookup(id.Name); known && v.kind == "matcher" {
+				arg := t.bytesExpr(x.Args[0], c, pre)
+				tmp := t.tmp()
+				*pre = append(*pre, "do ("+tmp+", v_"+v.name+") <- gst_Matches fuel' v_"+v.name+" "+arg+";\n")
+				return gqVal{text: tmp, kind: "bool"}
+			}
+		}
+	}
+	// enumVal(i): the conversion to uint8
+	if id, ok := x.Fun.(*ast.Ident); ok && id.Name == "enumVal" && len(x.Args) == 1 && t.f.pkg == "internal/ecolumn" && !shadow("enumVal") {
+		a := t.expr(x.Args[0], c, pre)
+		if a.kind == "int" {
+			return gqVal{text: "(" + a.text + " mod 256)", kind: "enumval"}
+		}
+	}
+	// r.MatchString(s) on a *regexp.Regexp: regexp's answer is the arbitrary function re_MatchString
+	if se, ok := x.Fun.(*ast.SelectorExpr); ok && se.Sel.Name == "MatchString" && len(x.Args) == 1 {
+		r := t.expr(se.X, c, pre)
+		if r.kind == "regexp" {
+			return gqVal{text: "(re_MatchString " + r.text + " " + t.bytesExpr(x.Args[0], c, pre) + ")", kind: "bool"}
 		}
 	}
 	if ce, ok := gqIsCall(x, "strings", "ToUpper"); ok && len(ce.Args) == 1 && !shadow("strings") {
@@ -969,7 +1196,16 @@ func gqPatType(vs []gqVar) string {
 
 func (t *gqTr) declare(st ast.Node, c *gqCtx, name, kind string) {
 	if _, dup := c.lookup(name); dup {
-		t.fail(st, "%s shadows / redeclares a variable", name)
+		// the one shadowing that is understood: an argument of the function that is never assigned
+		isArg := false
+		for _, v := range t.f.params {
+			if v.name == name {
+				isArg = true
+			}
+		}
+		if !isArg || gqAssigned(t.f.fd.Body)[name] {
+			t.fail(st, "%s shadows / redeclares a variable", name)
+		}
 	}
 	if _, isF := gqFuncs[name]; isF {
 		t.fail(st, "%s shadows a function", name)
@@ -995,6 +1231,11 @@ func (t *gqTr) bind(st ast.Node, name string, want string, v gqVal) string {
 		txt = v.text
 	case "bytes", "ptr":
 		txt = t.asBytes(st, v)
+	case "bitset", "matcher":
+		if v.kind != want {
+			t.fail(st, "%s (%s) is assigned a %s", name, want, v.kind)
+		}
+		txt = v.text
 	default:
 		t.fail(st, "variable %s of a type that is not understood", name)
 	}
@@ -1054,6 +1295,20 @@ func (t *gqTr) simple(st ast.Stmt, c *gqCtx) (string, bool) {
 		if ce, ok := gqIsCall(x.X, "", "copy"); ok && len(ce.Args) == 2 {
 			return t.copyStmt(st, ce, "", token.ASSIGN, c)
 		}
+		// bset.set(e): the translated method of GenFuncs.v (None = index out of range = Panic)
+		if ce, ok := x.X.(*ast.CallExpr); ok && len(ce.Args) == 1 {
+			if se, ok := ce.Fun.(*ast.SelectorExpr); ok && se.Sel.Name == "set" {
+				if id, ok := se.X.(*ast.Ident); ok {
+					if v, known := c.lookup(id.Name); known && v.kind == "bitset" {
+						a := t.expr(ce.Args[0], *c, &pre)
+						if a.kind != "enumval" {
+							t.fail(st, "bitset.set of something that is not an enumVal")
+						}
+						return wrap("do v_" + v.name + " <- of_option (gf_ecolumn_bitset_set v_" + v.name + " " + a.text + ");\n"), true
+					}
+				}
+			}
+		}
 		t.fail(st, "statement not understood: %s", t.src(st))
 		return "", true
 	case *ast.AssignStmt:
@@ -1081,6 +1336,11 @@ func (t *gqTr) simple(st ast.Stmt, c *gqCtx) (string, bool) {
 					return "", true
 				}
 				v, known := c.lookup(id.Name)
+				if known && v.kind == "bools" {
+					i := t.intExpr(ie.Index, *c, &pre)
+					e := t.boolExpr(x.Rhs[0], *c, &pre)
+					return wrap("do v_" + id.Name + " <- gst_store_bool v_" + id.Name + " " + i + " " + e + ";\n"), true
+				}
 				if !known || v.kind != "bytes" {
 					t.fail(st, "%s is not a []byte variable", id.Name)
 					return "", true
@@ -1132,6 +1392,24 @@ func (t *gqTr) simple(st ast.Stmt, c *gqCtx) (string, bool) {
 					t.declare(st, c, d.name, d.kind)
 				}
 				return wrap("let '(" + strings.Join(pat, ", ") + ") := gst_DecodeRuneInString " + arg + " in\n"), true
+			}
+			// s, isNull := col.stringAt(e)
+			if ce, ok := x.Rhs[0].(*ast.CallExpr); ok && len(lhs) == 2 && x.Tok == token.DEFINE && len(ce.Args) == 1 {
+				if se, ok := ce.Fun.(*ast.SelectorExpr); ok && se.Sel.Name == "stringAt" {
+					if id, ok := se.X.(*ast.Ident); ok {
+						if col, known := c.lookup(id.Name); known && col.kind == "scol" && lhs[0] != "_" && lhs[1] != "_" {
+							a := t.expr(ce.Args[0], *c, &pre)
+							if a.kind != "id" {
+								t.fail(st, "stringAt of something that is not a row id")
+							}
+							tmp := t.tmp()
+							out := wrap("do " + tmp + " <- gst_stringAt v_" + col.name + " " + a.text + ";\nlet '(v_" + lhs[0] + ", v_" + lhs[1] + ") := " + tmp + " in\n")
+							t.declare(st, c, lhs[0], "bytes")
+							t.declare(st, c, lhs[1], "bool")
+							return out, true
+						}
+					}
+				}
 			}
 			// r, err := regexp.Compile(e): r is the source text, err the flag "did not compile"
 			if ce, ok := gqIsCall(x.Rhs[0], "regexp", "Compile"); ok {
@@ -1342,6 +1620,23 @@ func (t *gqTr) stmts(list []ast.Stmt, c gqCtx, k func(gqCtx) string) string {
 		}
 		return memo
 	}
+	if xn, g, ce, ok := gqErrCall(st, rest); ok && t.f.errRes {
+		if !g.done || len(ce.Args) != len(g.params) || len(g.ptrs)+len(g.fields)+len(g.outs) > 0 {
+			t.fail(st, "call of %s in a form that is not understood", g.goName)
+			return "Panic"
+		}
+		var pre []string
+		parts := []string{g.coq, "fuel'"}
+		for i, a := range ce.Args {
+			v := t.expr(a, c, &pre)
+			if v.kind != g.params[i].kind {
+				t.fail(a, "argument type of %s", g.goName)
+			}
+			parts = append(parts, v.text)
+		}
+		t.declare(st, &c, xn, g.results[0])
+		return strings.Join(pre, "") + "do v_" + xn + " <- " + strings.Join(parts, " ") + ";\n" + t.stmts(rest[1:], c, k)
+	}
 	switch x := st.(type) {
 	case *ast.ReturnStmt:
 		if len(rest) > 0 {
@@ -1362,10 +1657,8 @@ func (t *gqTr) stmts(list []ast.Stmt, c gqCtx, k func(gqCtx) string) string {
 			}
 			last := results[len(results)-1]
 			if id, ok := last.(*ast.Ident); !ok || id.Name != "nil" {
-				ce, isCall := gqIsCall(last, "qerrors", "Propagate")
-				first, firstNil := results[0].(*ast.Ident)
-				if !isCall || len(ce.Args) != 2 || !firstNil || first.Name != "nil" {
-					t.fail(st, "an error return must be `return nil, qerrors.Propagate(.., err)`")
+				if !gqIsErrorReturn(x) {
+					t.fail(st, "an error return must be `return [nil,] qerrors.Propagate(.., err)`")
 					return "Panic"
 				}
 				return "Fail"
@@ -1403,7 +1696,9 @@ func (t *gqTr) stmts(list []ast.Stmt, c gqCtx, k func(gqCtx) string) string {
 		}
 		var pre []string
 		ct := t.boolExpr(x.Cond, c, &pre)
-		head := strings.Join(pre, "") + "if " + ct + " then\n"
+		// what the condition evaluates first (it may rebind a variable: m.Matches(s)) stays outside the branches
+		preText := strings.Join(pre, "")
+		head := "if " + ct + " then\n"
 		var elseList []ast.Stmt
 		switch e := x.Else.(type) {
 		case nil:
@@ -1427,11 +1722,11 @@ func (t *gqTr) stmts(list []ast.Stmt, c gqCtx, k func(gqCtx) string) string {
 			thenT := t.stmts(x.Body.List, c, func(gqCtx) string { return okPat })
 			elseT := t.stmts(elseList, c, func(gqCtx) string { return okPat })
 			inner := head + gsIndent(thenT) + "\nelse\n" + gsIndent(elseT)
-			return "do " + gqPat(pat) + " <- (\n" + gsIndent(inner) + ");\n" + next(c)
+			return preText + "do " + gqPat(pat) + " <- (\n" + gsIndent(inner) + ");\n" + next(c)
 		}
 		thenT := t.stmts(x.Body.List, c, func(c2 gqCtx) string { return next(gqRestrict(c2, c)) })
 		elseT := t.stmts(elseList, c, func(c2 gqCtx) string { return next(gqRestrict(c2, c)) })
-		return head + gsIndent(thenT) + "\nelse\n" + gsIndent(elseT)
+		return preText + head + gsIndent(thenT) + "\nelse\n" + gsIndent(elseT)
 	case *ast.ForStmt:
 		return t.forStmt(x, c, next)
 	case *ast.RangeStmt:
@@ -1538,8 +1833,15 @@ func (t *gqTr) rangeStmt(x *ast.RangeStmt, c gqCtx, next func(gqCtx) string) str
 	}
 	var pre []string
 	xv := t.expr(x.X, c, &pre)
-	if xv.kind != "bytes" {
-		t.fail(x.X, "range over something that is not a string")
+	elemKind, elemType, listOf := "rune", "Z", "(gst_range "+xv.text+")"
+	switch xv.kind {
+	case "bytes":
+	case "bools":
+		elemKind, elemType, listOf = "bool", "bool", "(gst_enum "+xv.text+")"
+	case "strs":
+		elemKind, elemType, listOf = "bytes", "bytes", "(gst_enum "+xv.text+")"
+	default:
+		t.fail(x.X, "range over something that is not a string, a []bool or a []string")
 		return "Panic"
 	}
 	if _, isId := x.X.(*ast.Ident); !isId {
@@ -1560,7 +1862,7 @@ func (t *gqTr) rangeStmt(x *ast.RangeStmt, c gqCtx, next func(gqCtx) string) str
 		if id.Name == "_" {
 			continue
 		}
-		t.declare(x, &cb, id.Name, []string{"int", "rune"}[i])
+		t.declare(x, &cb, id.Name, []string{"int", elemKind}[i])
 		names[i] = "v_" + id.Name
 	}
 	res := t.outerAssigned(c, x.Body)
@@ -1581,9 +1883,9 @@ func (t *gqTr) rangeStmt(x *ast.RangeStmt, c gqCtx, next func(gqCtx) string) str
 		recArgs = append(recArgs, "fuel'")
 		callArgs = append(callArgs, "fuel'")
 	}
-	fsig = append(fsig, "(l : list (Z * Z))")
+	fsig = append(fsig, "(l : list (Z * "+elemType+"))")
 	recArgs = append(recArgs, "l'")
-	callArgs = append(callArgs, "(gst_range "+xv.text+")")
+	callArgs = append(callArgs, listOf)
 	fsig = append(fsig, sig...)
 	recArgs = append(recArgs, args...)
 	callArgs = append(callArgs, args...)
@@ -1599,8 +1901,29 @@ func (t *gqTr) rangeStmt(x *ast.RangeStmt, c gqCtx, next func(gqCtx) string) str
 func gqSignature(p *pkgInfo, f *gqFunc) bool {
 	fd := f.fd
 	if fd.Recv != nil {
-		problem("internal/strings translation, function %s: a method", f.goName)
-		return false
+		bad := func() bool {
+			problem("internal/strings translation, function %s: receiver not understood", f.goName)
+			return false
+		}
+		if len(fd.Recv.List) != 1 || len(fd.Recv.List[0].Names) != 1 {
+			return bad()
+		}
+		st, isPtr := fd.Recv.List[0].Type.(*ast.StarExpr)
+		if !isPtr {
+			return bad()
+		}
+		id, isId := st.X.(*ast.Ident)
+		if !isId {
+			return bad()
+		}
+		fields, ok := gqStructFields(p, id.Name)
+		if !ok {
+			return bad()
+		}
+		f.recv, f.recvTy = fd.Recv.List[0].Names[0].Name, id.Name
+		for _, fl := range fields {
+			f.fields = append(f.fields, gqVar{f.recv + "_" + fl.name, fl.kind})
+		}
 	}
 	typeOf := func(e ast.Expr) string {
 		var b bytes.Buffer
@@ -1618,6 +1941,18 @@ func gqSignature(p *pkgInfo, f *gqFunc) bool {
 			return "matcher"
 		case "error":
 			return "error"
+		case "index.Int":
+			return "ids"
+		case "index.Bool":
+			return "bools"
+		case "[]string":
+			return "strs"
+		case "*bitset":
+			return "bitset"
+		case "Column":
+			if f.pkg == "internal/scolumn" {
+				return "scol"
+			}
 		}
 		return ""
 	}
@@ -1641,14 +1976,19 @@ func gqSignature(p *pkgInfo, f *gqFunc) bool {
 				f.errRes = true
 				continue
 			}
-			if (k != "bytes" && k != "int" && k != "matcher") || len(fl.Names) > 0 || f.errRes {
+			if (k != "bytes" && k != "int" && k != "matcher" && k != "bool" && k != "bitset") || len(fl.Names) > 0 || f.errRes {
 				problem("internal/strings translation, function %s: result type not understood", f.goName)
 				return false
 			}
 			f.results = append(f.results, k)
 		}
 	}
-	if len(f.results)+len(f.ptrs) == 0 {
+	for _, v := range f.params {
+		if v.kind == "bools" && gqAssigned(fd.Body)[v.name] {
+			f.outs = append(f.outs, v.name)
+		}
+	}
+	if len(f.results)+len(f.ptrs)+len(f.outs) == 0 {
 		problem("internal/strings translation, function %s: no result", f.goName)
 		return false
 	}
@@ -1663,12 +2003,19 @@ func (f *gqFunc) resultType() string {
 	for range f.ptrs {
 		tys = append(tys, "bytes")
 	}
+	for range f.fields {
+		tys = append(tys, "bytes")
+	}
+	for range f.outs {
+		tys = append(tys, "(list bool)")
+	}
 	return "outcome " + gsTypeTuple(tys)
 }
 
 func gqTranslate(p *pkgInfo, f *gqFunc) {
 	t := &gqTr{p: p, f: f}
 	c := gqCtx{}
+	c.vars = append(c.vars, f.fields...)
 	c.vars = append(c.vars, f.params...)
 	c.ret = func(res []gqVal) string {
 		if len(res) != len(f.results) {
@@ -1685,11 +2032,22 @@ func gqTranslate(p *pkgInfo, f *gqFunc) {
 					t.fail(f.fd, "a matcher is returned as %s", r.kind)
 				}
 				parts = append(parts, r.text)
+			case "bool", "bitset":
+				if r.kind != f.results[i] {
+					t.fail(f.fd, "a %s is returned as %s", f.results[i], r.kind)
+				}
+				parts = append(parts, r.text)
 			default:
 				parts = append(parts, t.asZ(f.fd, r, false))
 			}
 		}
 		for _, n := range f.ptrs {
+			parts = append(parts, "v_"+n)
+		}
+		for _, v := range f.fields {
+			parts = append(parts, "v_"+v.name)
+		}
+		for _, n := range f.outs {
 			parts = append(parts, "v_"+n)
 		}
 		return "Ok " + gsTuple(parts)
@@ -1700,11 +2058,14 @@ func gqTranslate(p *pkgInfo, f *gqFunc) {
 	})
 	var sig []string
 	sig = append(sig, "(fuel : nat)")
+	for _, v := range f.fields {
+		sig = append(sig, "(v_"+v.name+" : "+gqCoqType(v.kind)+")")
+	}
 	for _, v := range f.params {
 		sig = append(sig, "(v_"+v.name+" : "+gqCoqType(v.kind)+")")
 	}
 	var b strings.Builder
-	fmt.Fprintf(&b, "(* %s\n%s *)\n", gqPkg, gsSource(p, f.fd))
+	fmt.Fprintf(&b, "(* %s\n%s *)\n", f.pkg, gsSource(p, f.fd))
 	for _, l := range t.loops {
 		b.WriteString(l)
 	}
@@ -1712,6 +2073,12 @@ func gqTranslate(p *pkgInfo, f *gqFunc) {
 		f.coq, strings.Join(sig, " "), f.resultType(), gsIndent(gsIndent(body)))
 	f.text = b.String()
 	f.ok = !t.bad
+}
+
+func gqFileText(p *pkgInfo, f *ast.File) string {
+	var b bytes.Buffer
+	printer.Fprint(&b, p.fset, f)
+	return b.String()
 }
 
 func genStrSer() string {
@@ -1729,25 +2096,44 @@ func genStrSer() string {
 		}
 	}
 	var order []*gqFunc
+	for _, v := range gqForeignVocabulary {
+		fp := loadPkg(v.pkg)
+		fd, ok := fp.funcs[v.fn]
+		var b bytes.Buffer
+		if ok && fd.Body != nil {
+			printer.Fprint(&b, fp.fset, fd.Body)
+		}
+		if b.String() != v.body {
+			problem("internal/strings translation: the body of %s.%s is not the one the translation stands for (%s)", v.pkg, v.fn, v.what)
+		}
+	}
+	if e, ok := loadPkg("internal/ecolumn").files["bitset.go"]; !ok || !strings.Contains(gqFileText(loadPkg("internal/ecolumn"), e), "type bitset [4]uint64") {
+		problem("internal/strings translation: internal/ecolumn type bitset is not [4]uint64")
+	}
 	for _, n := range gqSpecs {
-		f := &gqFunc{goName: n, coq: "gst_" + n}
-		gqFuncs[n] = f
+		f := &gqFunc{goName: n, coq: "gst_" + strings.ReplaceAll(n, ".", "_"), pkg: gqPkg}
+		if i := strings.Index(n, ":"); i >= 0 {
+			f.pkg, f.goName = n[:i], n[i+1:]
+			f.coq = "gst_" + f.pkg[strings.LastIndex(f.pkg, "/")+1:] + "_" + f.goName
+		}
+		gqFuncs[f.goName] = f
 		order = append(order, f)
 	}
 	for _, f := range order {
-		fd, ok := p.funcs[f.goName]
+		fp := loadPkg(f.pkg)
+		fd, ok := fp.funcs[f.goName]
 		if !ok || fd.Body == nil {
-			problem("internal/strings translation: function %s not found in %s", f.goName, gqPkg)
+			problem("internal/strings translation: function %s not found in %s", f.goName, f.pkg)
 			continue
 		}
 		f.fd = fd
-		if !gqSignature(p, f) {
+		if !gqSignature(fp, f) {
 			f.fd = nil
 		}
 	}
 	for _, f := range order {
 		if f.fd != nil {
-			gqTranslate(p, f)
+			gqTranslate(loadPkg(f.pkg), f)
 		}
 		f.done = true
 	}
@@ -1799,8 +2185,15 @@ func genStrSer() string {
 		}
 		fmt.Fprintf(&b, "(* BEGIN gst_Matcher *)\n%s(* END gst_Matcher *)\n\n", text)
 	}
-	b.WriteString("Section GenStrSer.\n(* unicode.ToUpper; strings.ToUpper; regexp.Compile(x) succeeds *)\nVariable upper : Z -> Z.\nVariable str_upper : bytes -> bytes.\nVariable re_compile : bytes -> bool.\n\n")
-	for _, f := range order {
+	b.WriteString("Section GenStrSer.\n(* unicode.ToUpper; strings.ToUpper; regexp.Compile(x) succeeds *)\nVariable upper : Z -> Z.\nVariable str_upper : bytes -> bytes.\nVariable re_compile : bytes -> bool.\n(* (r *regexp.Regexp).MatchString(s), r given by the text it was compiled from *)\nVariable re_MatchString : bytes -> bytes -> bool.\n\n")
+	emitDispatch := func() { gqDispatch(&b, golden) }
+	lastMethod := -1
+	for i, f := range order {
+		if strings.HasSuffix(f.goName, ".Matches") {
+			lastMethod = i
+		}
+	}
+	for i, f := range order {
 		text := f.text
 		if !f.ok {
 			old, found := gfGoldenBlock(golden, f.coq)
@@ -1810,7 +2203,41 @@ func genStrSer() string {
 			text = "(* FALLBACK " + f.coq + ": not derivable from the current source; text of the last validated tree *)\n" + old
 		}
 		fmt.Fprintf(&b, "(* BEGIN %s *)\n%s(* END %s *)\n\n", f.coq, text, f.coq)
+		if i == lastMethod {
+			emitDispatch()
+		}
 	}
 	b.WriteString("End GenStrSer.\n")
 	return b.String()
+}
+
+// gqDispatch: matcher.Matches(s) on the interface value: the dynamic dispatch over the structs NewMatcher builds
+func gqDispatch(b *strings.Builder, golden string) {
+	{
+		text := "(* the method call m.Matches(s) on a Matcher: dispatch on the dynamic type; the matcher is answered too\n   (the receivers are pointers: a CI matcher keeps the buffer ToUpper leaves behind) *)\n" +
+			"Definition gst_Matches (fuel : nat) (m : gst_Matcher) (v_s : bytes) : outcome (bool * gst_Matcher) :=\n  match fuel with\n  | O => Panic\n  | S fuel' =>\n    match m with\n"
+		okAll := len(gqMatcherTypes) > 0
+		for _, n := range gqMatcherTypes {
+			g, have := gqFuncs[n+".Matches"]
+			if !have || !g.ok || len(g.fields) != len(gqMatcherFields[n]) || len(g.results) != 1 || g.results[0] != "bool" || len(g.params) != 1 || g.params[0].kind != "bytes" {
+				problem("internal/strings translation: no translated method Matches(s string) bool on *%s", n)
+				okAll = false
+				continue
+			}
+			var fs []string
+			for _, f := range gqMatcherFields[n] {
+				fs = append(fs, "f_"+f)
+			}
+			text += "    | gst_" + n + " " + strings.Join(fs, " ") + " =>\n        do " + gsTuple(append([]string{"r"}, fs...)) + " <- " + g.coq + " fuel' " + strings.Join(fs, " ") + " v_s;\n        Ok (r, gst_" + n + " " + strings.Join(fs, " ") + ")\n"
+		}
+		text += "    end\n  end.\n"
+		if !okAll {
+			if old, found := gfGoldenBlock(golden, "gst_Matches"); found {
+				text = "(* FALLBACK gst_Matches: not derivable from the current source; text of the last validated tree *)\n" + old
+			} else {
+				text = ""
+			}
+		}
+		fmt.Fprintf(b, "(* BEGIN gst_Matches *)\n%s(* END gst_Matches *)\n\n", text)
+	}
 }
